@@ -20,6 +20,9 @@ type c08Case struct {
 	From  int         `json:"from,omitempty"`
 	End   int         `json:"end,omitempty"`
 	List  []gen.Bytes `json:"list,omitempty"`
+	// big strings are named by their byte length (and the flipped byte of the second string)
+	Big  int `json:"big_len,omitempty"`
+	Flip int `json:"flip_byte,omitempty"`
 }
 
 func init() {
@@ -27,7 +30,7 @@ func init() {
 		ID:    "C08",
 		Level: "exploration",
 		Rule: "E1 bounded-exhaustive enumeration, per width n in {1,2,4,8}: (split) every string of length ≤2 over all 256 byte values and of length ≤L over {00,01,7f,80,ff,a5,5a,'a'}: FromStr length and every word, Get at every index, ToStr∘FromStr; " +
-			"(pack) ToStr on every list of in-range words up to a width-dependent length (every partial-last-byte shape); (diff) FirstDiff on every ordered pair of strings of length ≤D over 6 bytes × every from in [0, words+2] × every end in [-1, words+2]; (diff, long) FirstDiff on every ordered pair of 48 strings of 8..19 bytes (4 stem variants × 3 tails) and on single-byte flips of bases of EVERY length 1..40 at every byte position × every from × 7 ends; (lists) FromStrs/ToStrs element-wise (and the FromStrs elements once more after appending a byte to each: results must not alias each other) on every list of ≤3 strings over 4 strings. " +
+			"(pack) ToStr on every list of in-range words up to a width-dependent length (every partial-last-byte shape); (diff) FirstDiff on every ordered pair of strings of length ≤D over 6 bytes × every from in [0, words+2] × every end in [-1, words+2]; (diff, long) FirstDiff on every ordered pair of 48 strings of 8..19 bytes (4 stem variants × 3 tails) and on single-byte flips of bases of EVERY length 1..40 at every byte position × every from × 7 ends; (big) strings of 2^8, 2^12, 2^16 (±1) bytes: FromStr/ToStr/Get and FirstDiff against copies with one flipped byte; (lists) FromStrs/ToStrs element-wise (and the FromStrs elements once more after appending a byte to each: results must not alias each other) on every list of ≤3 strings over 4 strings. " +
 			"Oracle: the string's '0'/'1' rendering cut into n-bit groups. A case is one call; non-trivial when the string/list is non-empty.",
 		Assumptions: []string{"from < 0 and end < -1 are outside the statement and not called; long strings over the full byte alphabet are not enumerated"},
 		Run:         c08Run,
@@ -345,6 +348,65 @@ func c08Run(c *mc.Ctx) {
 		c.Add("firstdiff_cases", evals)
 		c.Add("firstdiff_long_cases", evals)
 	})
+	// (big) strings whose byte lengths lie next to 2^8, 2^12 and 2^16 (size thresholds)
+	{
+		type job struct{ l, n int }
+		var jobs []job
+		for _, p := range []uint{8, 12, 16} {
+			for _, d := range []int{-1, 0, 1} {
+				for _, n := range c08Widths {
+					jobs = append(jobs, job{1<<p + d, n})
+				}
+			}
+		}
+		c.Par(len(jobs), func(ji int) {
+			j := jobs[ji]
+			b := make([]byte, j.l)
+			for i := range b {
+				b[i] = byte(i*131 + i>>8 + 7)
+			}
+			sA := string(b)
+			var evals int64
+			order := int64(5)<<50 | int64(ji)<<20
+			want := refWords(sA, j.n)
+			got, p := bwFromStr(j.n, sA)
+			if p != "" || string(got) != string(want) {
+				c.Fail(order, "FromStr", "FromStr/big", c08Case{Width: j.n, Big: j.l}, p+fmt.Sprintf("%d words", len(got)), fmt.Sprintf("%d words (content differs or length)", len(want)))
+			} else if back, p2 := bwToStr(j.n, got); p2 != "" || back != sA {
+				c.Fail(order, "ToStr(FromStr)", "ToStr/big", c08Case{Width: j.n, Big: j.l}, p2+"(differs)", "(the string)")
+			}
+			evals++
+			nw := len(want)
+			for _, i := range []int{0, 1, nw / 2, nw - 2, nw - 1} {
+				if g, p := bwGet(j.n, sA, i); p != "" || g != want[i] {
+					c.Fail(order, "Get", "Get/big", c08Case{Width: j.n, Big: j.l, From: i}, p+fmt.Sprint(g), fmt.Sprint(want[i]))
+				}
+				evals++
+			}
+			// FirstDiff against copies with one flipped byte
+			for _, fp := range []int{0, j.l / 2, j.l - 2, j.l - 1} {
+				fb := append([]byte(nil), b...)
+				fb[fp] ^= 0x10
+				sB := string(fb)
+				for _, from := range []int{0, 1, 8*fp/j.n - 1, 8 * fp / j.n, 8*fp/j.n + 8/j.n} {
+					if from < 0 {
+						continue
+					}
+					for _, end := range []int{-1, nw, nw - 1} {
+						w := refFirstDiff(sA, sB, j.n, from, end)
+						g, p := bwFirstDiff(j.n, sA, sB, from, end)
+						if p != "" || g != w {
+							c.Fail(order, "FirstDiff", "FirstDiff/big", c08Case{Width: j.n, Big: j.l, Flip: fp, From: from, End: end}, p+fmt.Sprint(g), fmt.Sprint(w))
+						}
+						evals++
+					}
+				}
+			}
+			c.Count(evals, evals)
+			c.Expect(evals)
+			c.Add("big_string_cases", evals)
+		})
+	}
 	// (lists)
 	la := []string{"", "\xa5", "\x01\x80", "a\xff\x00"}
 	var lists [][]string
@@ -411,6 +473,27 @@ func c08AppendPoke(rst [][]byte) [][]byte {
 func c08Judge(kind string, cs c08Case) (got, want string) {
 	n := cs.Width
 	a, b := string(cs.A), string(cs.B)
+	if cs.Big > 0 {
+		bb := make([]byte, cs.Big)
+		for i := range bb {
+			bb[i] = byte(i*131 + i>>8 + 7)
+		}
+		a = string(bb)
+		bb[cs.Flip] ^= 0x10
+		b = string(bb)
+		if kind == "FromStr" || kind == "ToStr(FromStr)" {
+			g, p := bwFromStr(n, a)
+			w := refWords(a, n)
+			if p != "" || string(g) != string(w) {
+				return p + "FromStr differs from the reference", "FromStr equals the reference"
+			}
+			back, p2 := bwToStr(n, g)
+			if p2 != "" || back != a {
+				return p2 + "ToStr(FromStr(s)) differs from s", "ToStr(FromStr(s)) == s"
+			}
+			return "ok", "ok"
+		}
+	}
 	switch kind {
 	case "FromStr":
 		g, p := bwFromStr(n, a)
